@@ -46,9 +46,8 @@ def r_tab_vbadir(ctx, rep):
     ints = set()
     for m in walk_k(fn.body, "Match"):
         for a in m["arms"]:
-            for p in walk(a["pat"]):
-                if p.get("k") == "PLit" and isinstance(p.get("e"), dict) and isinstance(p["e"].get("v"), int):
-                    ints.add(p["e"]["v"])
+            from .kit import pat_literals
+            ints |= {v for v in pat_literals(a["pat"])[0] if isinstance(v, int)}     # literals and named constants
     need = {int(x, 16) for x in T["module_type_ids"] + T["module_optional_ids"] + [T["module_terminator"]]}
     key = "vba::read_modules|R-TAB-VBADIR|type+flags+terminator"
     if need <= ints and not (ints - need):
